@@ -11,13 +11,13 @@ namespace P2.Oblig
 open P2.Generated
 
 theorem go_statements_known :
-    goStatements = ["token.go|Tokenizer.Start|t.run", "value/multiUse.go|List.MultiUse|mu.runConsumer"] := by decide
+    goStatements = ["token.go|Tokenizer.Start|.run", "value/multiUse.go|List.MultiUse|.runConsumer"] := by decide
 
 theorem tokenizer_started_by_parse_only :
     tokenizerStartSites = ["parser2.go|Parser.Parse"] ∧ parseDefersDrainBehindStart = true ∧
-      channelCloseSites = ["token.go|Tokenizer.run|tokens"] := by decide
+      channelCloseSites = ["token.go|Tokenizer.run|<chan>"] := by decide
 
 theorem multiUse_runs_what_it_started :
-    multiUseReturnsBetweenGoAndRun = 0 ∧ multiUseRunArg = "recoverProducer(l.iterable(st))" := by decide
+    multiUseReturnsBetweenGoAndRun = 0 ∧ multiUseRunArg = "recoverProducer(<list>.iterable(…))" := by decide
 
 end P2.Oblig
